@@ -8,7 +8,7 @@ vars == <<l, st>>
 
 SeqToSet(sq) == {sq[i] : i \in 1 .. Len(sq)}
 StOf(cfg, o) ==
-  [ kind |-> cfg.kind, id |-> o.id, start |-> o.start, dur |-> cfg.dur, genesis |-> cfg.genesis, now |-> o.now,
+  [ kind |-> cfg.kind, id |-> o.id, start |-> o.start, dur |-> cfg.dur, genesis |-> cfg.genesis, first |-> cfg.first, now |-> o.now,
     hooks |-> SeqToSet(o.hooks),
     logs |-> [h \in AllHooks |-> [i \in 1 .. Len(o.logs[h]) |-> [id |-> o.logs[h][i].id, start |-> o.logs[h][i].start]]] ]
 
@@ -22,6 +22,11 @@ ObsChecks(exp, t) ==
 Unchanged(ev, t) ==
   << <<"C20.rejected.unchanged", t = st>>, <<"C20.rejected.digest", ev.dpre = ev.dpost>> >>
 
+\* the manager's answers for past epochs (Epoch { id }): every id from the first one up to the current one is known, under
+\* its own id, with the start time it was created with
+ByIdChecks(t, byid) ==
+  << <<"C20.query.epoch-by-id=the-epoch-that-was-created",
+        \A i \in DOMAIN byid : byid[i].id = byid[i].asked /\ byid[i].start = t.genesis ++ ((byid[i].id -- t.first) ** t.dur)>> >>
 EvChecks(ev, t) ==
   (CASE ev.ev = "create" ->
           IF ev.res = "ok" THEN CreateChecks(st) \o ObsChecks(CreateNext(st), t)
@@ -36,7 +41,7 @@ EvChecks(ev, t) ==
           THEN << <<"C16.hooks.admin-only", ev.actor = "owner">> >> \o ObsChecks(RemoveHookNext(st, ev.args.x), t)
           ELSE Unchanged(ev, t)
      [] OTHER -> << <<"TRACE.unknown-event", FALSE>> >>)
-  \o StepChecks(st, t) \o ClockChecks(t)
+  \o StepChecks(st, t) \o ClockChecks(t) \o ByIdChecks(t, ev.obs.byid)
 
 Report(ev, bad) ==
   IF bad = {} THEN TRUE
@@ -47,7 +52,7 @@ Init == l = 1 /\ st = [kind |-> "none"]
 Next ==
   /\ l <= Len(Rec)
   /\ LET ev == Rec[l] IN
-       IF ev.ev = "reset" THEN Report(ev, Failed(ClockChecks(StOf(ev.cfg, ev.obs)))) /\ st' = StOf(ev.cfg, ev.obs)
+       IF ev.ev = "reset" THEN Report(ev, Failed(ClockChecks(StOf(ev.cfg, ev.obs)) \o ByIdChecks(StOf(ev.cfg, ev.obs), ev.obs.byid))) /\ st' = StOf(ev.cfg, ev.obs)
        ELSE LET t == StOf(st, ev.obs) IN Report(ev, Failed(EvChecks(ev, t))) /\ st' = t
   /\ l' = l + 1
 Spec == Init /\ [][Next]_vars
